@@ -33,6 +33,12 @@ Definition substitute (ops : list iop) (body : list (N * str)) : list (N * str) 
                              ops (0, snd ln)))) body
   end.
 
+(** MAX_MACRO_LINE: how long a line of a body may be once the arguments are in it (the nesting limit bounds the depth of an
+    expansion, this bounds its size: an argument that mentions itself twice doubles at every level) *)
+Definition max_macro_line : N := 65536.
+Definition too_long (ls : list (N * str)) : bool :=
+  existsb (fun ln => (max_macro_line <? N.of_nat (length (snd ln)))%N) ls.
+
 Definition macro_expand (line : N) (name : str) (ops : list iop) (st : pstate) : res (pstate * list segment) :=
   match lookup name macroses with
   | None => Err (Some line)
@@ -40,6 +46,7 @@ Definition macro_expand (line : N) (name : str) (ops : list iop) (st : pstate) :
       let inner := {| segs := [{| items := []; seg_t := SCode; address := address (last_seg st) |}];
                       macro_name := macro_name st; macros := macros st; msgs := msgs st; pcx := pcx st; fl := fl_empty |} in
       let ls := substitute ops body in
+      if too_long ls then Err (Some line) else
       do r <- parse_iter fuel include_file (S (length ls)) ls false inner;
       Ok ({| segs := segs st; macro_name := macro_name r; macros := macros r; msgs := msgs r; pcx := pcx r; fl := fl st |},
           but_last_non_empty (segs r))
